@@ -143,6 +143,11 @@ def run(prop, tier, seed, t0, a):
             refused.append((k, str(e)))
             if a.verbose:
                 traceback.print_exc()
+        except (KeyError, AttributeError, TypeError, IndexError, ValueError, z3.Z3Exception) as e:
+            # a sidecar contract that no longer fits the code (a variable, loop or ghost cell it names is gone): undecided
+            refused.append((k, f"contract could not be evaluated on this code: {type(e).__name__}: {e}"))
+            if a.verbose:
+                traceback.print_exc()
     # canary: `false` must NOT be provable from the property's global axiom set
     from .state import State as _State
     eng.cur_key, eng.entry_syms = f"{prop}#axioms", {}
@@ -301,6 +306,8 @@ def run(prop, tier, seed, t0, a):
             nm = o['name'] if isinstance(o, dict) else o.name
             print(f"UNDECIDED property={prop} obligation={nm}")
     viol = 0
+    import shutil
+    shutil.rmtree(os.path.join(OUT, 'out', prop), ignore_errors=True)      # replay files of earlier runs are stale
     if failed:
         os.makedirs(os.path.join(OUT, 'out', prop), exist_ok=True)
         for o in failed:
